@@ -17,21 +17,54 @@ theorem C12_date (E : Ext) (typ md y m d : Nat) (ht : typ = 10 ∨ typ = 14) (hy
     (u : Bool) (rest : Bytes) (lc f32 f64 : Nat → Bytes) :
     cellBytes E (W.cell typ md (.date y m d) ++ rest) 0 typ md u
       = .ok (W.text md lc f32 f64 (.date y m d), 3) := by
-  sorry
+  have hv : (d + 32 * m + 512 * y) % 256 ^ 3 = d + 32 * m + 512 * y := by omega
+  have h1 : (d + 32 * m + 512 * y) / 512 = y := by omega
+  have h2 : (d + 32 * m + 512 * y) / 32 % 16 = m := by omega
+  have h3 : (d + 32 * m + 512 * y) % 32 = d := by omega
+  rw [date_body E typ md ht]
+  simp only [W.cell, leIdx_head, Res.ok_bind, Res.pure_eq, hv, h1, h2, h3, W.text,
+    pad4_year y hy, pad2_two m (by omega), pad2_two d (by omega)]
 
 /-- pre-5.6.4 TIME (3-byte ±hhmmss), hours up to 838, both signs -/
 theorem C12_time_old (E : Ext) (md h m s : Nat) (neg : Bool) (hh : h ≤ 838) (hm : m ≤ 59) (hs : s ≤ 59)
     (hz : neg = true → h + m + s ≠ 0) (u : Bool) (rest : Bytes) (lc f32 f64 : Nat → Bytes) :
     cellBytes E (W.cell 11 md (.time neg h m s) ++ rest) 0 11 md u
       = .ok (W.text md lc f32 f64 (.time neg h m s), 3) := by
-  sorry
+  have h1 : (h * 10000 + m * 100 + s) / 10000 = h := by omega
+  have h2 : (h * 10000 + m * 100 + s) % 10000 / 100 = m := by omega
+  have h3 : (h * 10000 + m * 100 + s) % 100 = s := by omega
+  have hb : h * 10000 + m * 100 + s ≤ 8385959 := by omega
+  rw [time_old_body]
+  simp only [W.cell, get2_ofLE3, leIdx_head, Res.ok_bind, Res.pure_eq, toNat_ofNat_mod,
+    W.text, ← pad2_hours h (by omega), ← pad2_two m (by omega), ← pad2_two s (by omega)]
+  cases neg with
+  | false =>
+    have hn : ¬ ((h * 10000 + m * 100 + s) / 256 / 256 % 256 ≥ 128) := by
+      generalize h * 10000 + m * 100 + s = v at hb; omega
+    have hv : (h * 10000 + m * 100 + s) % 256 ^ 3 = h * 10000 + m * 100 + s := by omega
+    simp only [Bool.false_eq_true, if_false, hn, hv, h1, h2, h3]
+  | true =>
+    have hp : h + m + s ≠ 0 := hz rfl
+    have hb' : 0 < h * 10000 + m * 100 + s := by omega
+    have hn : ((2 ^ 24 - (h * 10000 + m * 100 + s)) / 256 / 256 % 256 ≥ 128) := by
+      generalize h * 10000 + m * 100 + s = v at hb hb'; omega
+    have hv : 2 ^ 24 - (2 ^ 24 - (h * 10000 + m * 100 + s)) % 256 ^ 3 = h * 10000 + m * 100 + s := by omega
+    simp only [if_true, hn, hv, h1, h2, h3]
 
 /-- pre-5.6.4 DATETIME (8-byte decimal-coded) -/
 theorem C12_datetime_old (E : Ext) (md y mo d h mi s : Nat) (hy : y ≤ 9999) (hmo : mo ≤ 12) (hd : d ≤ 31)
     (hh : h ≤ 23) (hmi : mi ≤ 59) (hs : s ≤ 59) (u : Bool) (rest : Bytes) (lc f32 f64 : Nat → Bytes) :
     cellBytes E (W.cell 12 md (.datetime y mo d h mi s) ++ rest) 0 12 md u
       = .ok (W.text md lc f32 f64 (.datetime y mo d h mi s), 8) := by
-  sorry
+  have hE : (y * 10000 + mo * 100 + d) * 1000000 + h * 10000 + mi * 100 + s
+      = (y * 10000 + mo * 100 + d) * 1000000 + (h * 10000 + mi * 100 + s) := by omega
+  obtain ⟨hv, hD, hT⟩ := dt_split (y * 10000 + mo * 100 + d) (h * 10000 + mi * 100 + s) (by omega) (by omega)
+  rw [datetime_old_body]
+  simp only [W.cell, readLE_head, Res.ok_bind, Res.pure_eq, hE, hv, hD, hT,
+    dec3_1 y mo d (by omega) (by omega), dec3_2 y mo d (by omega) (by omega), dec3_3 y mo d (by omega),
+    dec3_1 h mi s (by omega) (by omega), dec3_2 h mi s (by omega) (by omega), dec3_3 h mi s (by omega),
+    W.text, pad4_year y hy, pad2_two mo (by omega), pad2_two d (by omega), pad2_two h (by omega),
+    pad2_two mi (by omega), pad2_two s (by omega)]
 
 /-- TIME2, fsp 0..6, both signs, with the negative-fraction borrow -/
 theorem C12_time2 (E : Ext) (fsp h m s frac : Nat) (neg : Bool) (hf : fsp ≤ 6) (hh : h ≤ 838) (hm : m ≤ 59) (hs : s ≤ 59)
@@ -39,7 +72,19 @@ theorem C12_time2 (E : Ext) (fsp h m s frac : Nat) (neg : Bool) (hf : fsp ≤ 6)
     (lc f32 f64 : Nat → Bytes) :
     cellBytes E (W.cell 19 fsp (.time2 neg h m s frac) ++ rest) 0 19 fsp u
       = .ok (W.text fsp lc f32 f64 (.time2 neg h m s frac), 3 + (fsp + 1) / 2) := by
-  sorry
+  obtain ⟨hlt, hB⟩ := time2_stored_lt fsp frac hf hfr
+  have hz' : neg = true → (h * 64 + m) * 64 + s + W.fracStored fsp frac ≠ 0 := by
+    intro hn; have := hz hn; unfold W.fracStored; split <;> omega
+  obtain ⟨a1, a2, a3⟩ := time2_arith (256 ^ W.fracBytes fsp) ((h * 64 + m) * 64 + s) (W.fracStored fsp frac) _ _ _ neg
+    hB (by omega) hlt hz' rfl rfl rfl
+  have hw : ∀ v, v % 256 ^ W.fracBytes fsp ≠ 0 → W.fracBytes fsp ≠ 0 := by
+    intro v hv h0; rw [h0] at hv; simp [Nat.mod_one] at hv
+  rw [time2_body']
+  simp only [W.cell, time2_w fsp hf, (time2_read _ _ rest).1, (time2_read _ _ rest).2, Res.ok_bind, Res.pure_eq]
+  rw [time2Out_spec fsp _ _ _ frac neg hf hfr a1 a2 a3 (hw _)]
+  simp only [W.text, hms_h h m s hm hs, hms_m h m s hm hs, hms_s h m s hs, pad2_two m (by omega),
+    pad2_two s (by omega), List.append_assoc]
+  rw [Nat.mod_eq_of_lt (by omega : h < 1024), pad2_hours h (by omega)]
 
 /-- DATETIME2, fsp 0..6 -/
 theorem C12_datetime2 (E : Ext) (fsp y mo d h mi s frac : Nat) (hf : fsp ≤ 6) (hy : y ≤ 9999) (hmo : mo ≤ 12)
@@ -47,7 +92,14 @@ theorem C12_datetime2 (E : Ext) (fsp y mo d h mi s frac : Nat) (hf : fsp ≤ 6) 
     (lc f32 f64 : Nat → Bytes) :
     cellBytes E (W.cell 18 fsp (.datetime2 y mo d h mi s frac) ++ rest) 0 18 fsp u
       = .ok (W.text fsp lc f32 f64 (.datetime2 y mo d h mi s frac), 5 + (fsp + 1) / 2) := by
-  sorry
+  have hv := subU64_off _ (dt2_bound y mo d h mi s hy hmo hd hh hmi hs)
+  rw [datetime2_body]
+  simp only [W.cell, List.append_assoc, beIdx_head, Res.ok_bind, Res.pure_eq, hv,
+    fracSuffix_spec (Bytes.ofBE 5 _) rest 5 fsp frac (by simp) hf hfr,
+    dt2_hi _ h mi s hh hmi hs, dt2_lo _ h mi s hh hmi hs, ymd_y y mo d hmo hd, ymd_m y mo d hmo hd,
+    ymd_d y mo d hd, hms_h h mi s hmi hs, hms_m h mi s hmi hs, hms_s h mi s hs, W.text,
+    pad4_year y hy, pad2_two mo (by omega), pad2_two d (by omega), pad2_two h (by omega),
+    pad2_two mi (by omega), pad2_two s (by omega)]
 
 /-! TIMESTAMP / TIMESTAMP2 (partial; named facet: which UTC offset applies to an instant is Go's time-zone
     database and enters as the parameter `E.tzOffset`).  Proved: the bytes reach `printTimestamp` as the stored
@@ -70,18 +122,39 @@ def daysInMonth (y m : Int) : Int :=
 
 theorem C12_civil_roundtrip (y m d : Int) (hy : 1900 ≤ y ∧ y ≤ 2200) (hm : 1 ≤ m ∧ m ≤ 12)
     (hd : 1 ≤ d ∧ d ≤ daysInMonth y m) : civilOfDays (daysOfCivil y m d) = (y, m, d) := by
-  sorry
+  have _ := hy
+  unfold daysInMonth at hd
+  unfold daysOfCivil
+  by_cases h : m ≤ 2
+  · have h2 : ¬ (m > 2) := by omega
+    simp only [h, h2, if_false, if_true]
+    apply roundtrip_early y m d ⟨hm.1, h⟩ hd.1
+    have := hd.2
+    split at this <;> split <;> first | exact this | omega
+  · have h2 : m > 2 := by omega
+    simp only [h, h2, if_false, if_true]
+    apply roundtrip_late y m d ⟨by omega, hm.2⟩ hd.1
+    have := hd.2
+    rw [if_neg (by omega)] at this
+    exact this
 
 theorem C12_timestamp_partial (E : Ext) (md sec : Nat) (hs : sec < 2 ^ 32) (u : Bool) (rest : Bytes) :
     cellBytes E (W.cell 7 md (.timestamp sec) ++ rest) 0 7 md u = .ok (printTimestamp E sec, 4) ∧
     printTimestamp E 0 = asc "0000-00-00 00:00:00" := by
-  sorry
+  constructor
+  · have e : sec % 256 ^ 4 = sec := Nat.mod_eq_of_lt (by omega)
+    rw [timestamp_body]
+    simp only [W.cell, readLE_head, Res.ok_bind, Res.pure_eq, e]
+  · simp [printTimestamp]
 
 theorem C12_timestamp2_partial (E : Ext) (fsp sec frac : Nat) (hf : fsp ≤ 6) (hs : sec < 2 ^ 32)
     (hfr : frac < 10 ^ fsp) (u : Bool) (rest : Bytes) :
     cellBytes E (W.cell 17 fsp (.timestamp2 sec frac) ++ rest) 0 17 fsp u
       = .ok (printTimestamp E sec ++ W.fracText fsp frac, 4 + (fsp + 1) / 2) := by
-  sorry
+  have e : sec % 256 ^ 4 = sec := Nat.mod_eq_of_lt (by omega)
+  rw [timestamp2_body]
+  simp only [W.cell, List.append_assoc, readBE_head, Res.ok_bind, Res.pure_eq,
+    fracSuffix_spec (Bytes.ofBE 4 _) rest 4 fsp frac (by simp) hf hfr, e]
 
 /-! non-vacuity: the hypotheses are satisfiable on non-trivial values -/
 example : (838 ≤ 838 ∧ 59 ≤ 59 ∧ 59 ≤ 59) ∧ ((true = true) → 838 + 59 + 59 + 999999 ≠ 0) ∧ 999999 < 10 ^ 6 := by decide
